@@ -2420,17 +2420,17 @@ func (lbc *LoadBalancerController) createVirtualServerEx(virtualServer *conf_v1.
 	// generateBackupEndpoints takes the Upstream, determines if backup and backup port are defined.
 	// If backup and backup port are defined it generates a backup server entry for the upstream.
 	// Backup Service is of type ExternalName.
-	generateBackupEndpoints := func(endpoints map[string][]string, u conf_v1.Upstream) {
+	generateBackupEndpoints := func(endpoints map[string][]string, namespace string, u conf_v1.Upstream) {
 		if u.Backup == "" || u.BackupPort == nil {
 			return
 		}
-		backupEndpointsKey := configs.GenerateEndpointsKey(virtualServer.Namespace, u.Backup, u.Subselector, *u.BackupPort)
-		backupEndps, external, err := lbc.getEndpointsForUpstream(virtualServer.Namespace, u.Backup, *u.BackupPort)
+		backupEndpointsKey := configs.GenerateEndpointsKey(namespace, u.Backup, u.Subselector, *u.BackupPort)
+		backupEndps, external, err := lbc.getEndpointsForUpstream(namespace, u.Backup, *u.BackupPort)
 		if err != nil {
 			nl.Warnf(lbc.Logger, "Error getting Endpoints for Upstream %v: %v", u.Name, err)
 		}
 		if err == nil && external {
-			externalNameSvcs[configs.GenerateExternalNameSvcKey(virtualServer.Namespace, u.Backup)] = true
+			externalNameSvcs[configs.GenerateExternalNameSvcKey(namespace, u.Backup)] = true
 		}
 		bendps := getIPAddressesFromEndpoints(backupEndps)
 		endpoints[backupEndpointsKey] = bendps
@@ -2479,7 +2479,7 @@ func (lbc *LoadBalancerController) createVirtualServerEx(virtualServer *conf_v1.
 			}
 		}
 
-		generateBackupEndpoints(endpoints, u)
+		generateBackupEndpoints(endpoints, virtualServer.Namespace, u)
 		endpoints[endpointsKey] = endps
 	}
 
@@ -2616,7 +2616,7 @@ func (lbc *LoadBalancerController) createVirtualServerEx(virtualServer *conf_v1.
 				}
 			}
 
-			generateBackupEndpoints(endpoints, u)
+			generateBackupEndpoints(endpoints, vsr.Namespace, u)
 			endpoints[endpointsKey] = endps
 		}
 	}
